@@ -249,6 +249,8 @@ def run(ctx):
     layout_obligation(ctx)
     # the member lists compared by reb_particle_diff / the var_config branch are regenerated from the current source
     ctx.regen("translate_descriptors.py")
+    # statement order (advance threshold / save) of the three heartbeat branches
+    ctx.regen("translate_c06_heartbeat.py")
     proved = ctx.prove("C06", extra_targets=["C06/Run.vo", "C06/RunF.vo"])
     rng = ctx.rng
 
@@ -299,6 +301,29 @@ def run(ctx):
         ctx.violation("many-snapshots", {"job": {"kind": "many", "n": 1100}, "result": m0, "how": "tools/c06_driver.py job_many"}, True,
                       "property=C06 an archive with 1100 snapshots (N=1, leapfrog) reads back nblobs=%s, last t=%s (expected 1100, %s)"
                       % (m0.get("nblobs"), m0.get("last_t"), m0.get("expected_last_t")))
+    # ---- all three cadences: restored snapshot == live simulation right after the call that wrote it (incl. next / next_step)
+    ljobs = []
+    for mode in ("step", "interval", "walltime"):
+        for rep in range(ctx.scale(3, 20)):
+            dt = rng.choice([0.05, 0.02, -0.04])
+            val = {"step": rng.randint(1, 4), "interval": abs(dt) * (rng.randint(1, 3) + 0.37), "walltime": 1e-9}[mode]
+            ljobs.append({"kind": "autolive", "spec": {"n": rng.choice([2, 3]), "integrator": rng.choice(["whfast", "ias15", "leapfrog", "mercurius", "saba"]), "dt": dt,
+                                                    "t0": rng.choice([0.0, 1.0])}, "mode": mode, "val": val, "nsteps": rng.randint(8, 14), "presteps": rng.randint(0, 2)})
+    lres = run_jobs(libdir, [ljobs[i:i + 3] for i in range(0, len(ljobs), 3)], timeout=120)
+    lres = [x for b in lres for x in (b if isinstance(b, list) else [{"died": str(b)}] * 3)]
+    lbad = []
+    for job, r in zip(ljobs, lres):
+        ctx.case(key=("autolive", job["mode"], job["spec"]["integrator"], job["val"], job["nsteps"]), nontrivial=r.get("nsnap", 0) >= 2,
+                 sample={"snapshot_vs_live": job, "snapshots": r.get("nsnap"), "full_compares": r.get("full_compares")} if len(ctx.samples) < 6 else None)
+        if r.get("nbad") or "died" in r:
+            lbad.append((job, r))
+    if lbad:
+        job, r = min(lbad, key=lambda jr: jr[0]["nsteps"])
+        b0 = (r.get("bad") or [{}])[0]
+        ctx.violation("snapshot-vs-live-%s" % job["mode"], {"job": job, "result": r, "how": "tools/c06_driver.py job_autolive", "n_cases": len(lbad)}, True,
+                      "property=C06 %s cadence: snapshot %s restored differs from the live simulation right after it was written in %s (snapshot next_step=%s next=%s, live next_step=%s next=%s)"
+                      % (job["mode"], b0.get("snapshot"), b0.get("fields"), b0.get("snapshot_next_step"), b0.get("snapshot_next"), b0.get("live_next_step"), b0.get("live_next")))
+
     # ---- interval cadence, binary64: the Num-polymorphic heartbeat term at FNum vs the library, bit for bit
     fjobs = []
     for _ in range(ctx.scale(24, 200)):
